@@ -18,6 +18,9 @@ CONSTANTS
   Pads = TRUE
   Sample = TRUE
   Emit = TRUE
+  RdLimit = 1048576
+  BigDeltas <- NoDeltas
+  MaxBig = 0
   InitSample = 400
 INIT Init
 NEXT Next
